@@ -21,8 +21,8 @@ THEOREMS = [
     # SPSDK wrappers
     "wrap_cbc_roundtrip", "wrap_cbc_roundtrip_default_iv", "wrap_sm4_cbc_roundtrip", "wrap_ecb_roundtrip", "wrap_ctr_roundtrip",
     "wrap_xts_roundtrip", "wrap_ccm_roundtrip", "wrap_keywrap_roundtrip",
-    "counter_advance", "counter_advance_wrap_refuted",
-    "crc_table_standard", "crc_split", "keystore_derivations", "sb31_kdf_spec",
+    "counter_advance", "counter_wraps_at_2_32",
+    "crc_table_standard", "crc_split", "keystore_derivations", "sb31_kdf_spec", "mac_hash_wrappers_reference",
 ]
 FN = {1: "aes_ecb_encrypt/decrypt", 2: "aes_ecb_decrypt", 3: "aes_cbc_encrypt/decrypt", 4: "aes_cbc_decrypt",
       5: "aes_ctr_encrypt/decrypt", 7: "aes_xts_encrypt/decrypt", 8: "aes_xts_decrypt", 9: "aes_ccm_encrypt/decrypt",
@@ -499,7 +499,7 @@ def gen_cases(tier, rng):
 
     def lens(maxex, extra):
         return list(range(0, maxex + 1)) + extra
-    mlens = lens(80 if th else 50, [95, 96, 97, 127, 128, 255, 256, 1000, 2048, 4096] if th else [64, 65, 80, 127, 128, 1024])
+    mlens = lens(80 if th else 36, [95, 96, 97, 127, 128, 255, 256, 1000, 2048, 4096] if th else [47, 48, 49, 64, 65, 80, 512])
     keys = [16, 24, 32]
     # ---- ECB / CTR / CBC / SM4
     ecb, ctr, cbc, sm4, dec = [], [], [], [], []
@@ -544,7 +544,7 @@ def gen_cases(tier, rng):
     S["ECB/CBC decrypt of arbitrary data"] = dec
     # ---- XTS
     xts = []
-    for n in lens(70 if th else 50, [79, 80, 81, 255, 256, 257, 1024] if th else [64, 65, 100, 512]):
+    for n in lens(70 if th else 40, [79, 80, 81, 255, 256, 257, 1024] if th else [47, 48, 49, 64, 65, 200]):
         for kl in (32, 64):
             xts.append([7, VB(rb(kl)), VB(rb(n)), VB(rb(16))])
     for kl in (16, 31, 48, 63, 65):
@@ -593,7 +593,7 @@ def gen_cases(tier, rng):
     S["RFC 3394 wrap->unwrap"] = kw
     # ---- Counter
     cn = []
-    starts = [0, 1, 2, 0x7FFFFFFF, 0x80000000, 0xFFFFFFF0, 0xFFFFFFFE, 0xFFFFFFFF] + [rng.getrandbits(32) for _ in range(12 if th else 4)]
+    starts = ([0, 1, 2, 0x7FFFFFFF, 0x80000000, 0xFFFFFFF0, 0xFFFFFFFE, 0xFFFFFFFF] if th else [0, 1, 0x7FFFFFFF, 0xFFFFFFFE, 0xFFFFFFFF]) + [rng.getrandbits(32) for _ in range(12 if th else 3)]
     incsets = [[], [1], [1, 1, 1], [2, 3, 5], [16, 1, 1], [0x10000, 1], [0xFFFFFFFF], [0x7FFFFFFF, 0x7FFFFFFF, 2], [0, 0], [1 << 32, 1], [1 << 40]]
     incsets += [[rng.choice([1, 1, 2, 3, 7, 64, 1000, 1 << 20, 1 << 31]) for _ in range(rng.randrange(1, 6))] for _ in range(20 if th else 6)]
     for s in starts:
@@ -661,7 +661,7 @@ def gen_cases(tier, rng):
     if th:
         small += [bytes([x, y]) for x in range(256) for y in range(0, 256, 3)]
     else:
-        small += [bytes([x, y]) for x in range(0, 256, 5) for y in range(0, 256, 37)]
+        small += [bytes([x, y]) for x in range(0, 256, 9) for y in range(0, 256, 51)]
     for nm in names:
         for d in small:
             cr.append([26, VS(nm), VB(d)])
@@ -722,36 +722,19 @@ def norm(v):
     return vlib.vj(v)
 
 
-def known_class(case, ri):
-    """Counter wrap (finding C09-F1): the faithful model raises where a repaired implementation would wrap."""
-    return case[0] == 15
-
-
 def same(case, ri, rm):
-    if ri == rm:
-        return True
-    if case[0] == 15 and ri[0] == "l" and rm[0] == "l" and len(ri[1]) == len(rm[1]):
-        # accept the specified (wrapped) value where the faithful model has the OverflowError, so that an upstream
-        # repair of the finding is not reported as a disagreement
-        a = [x[1] for x in case[1:]]
-        nonce, cv, big, incs = a[0], unopt(case[2]), a[2], [x[1] for x in a[3]]
-        order = "big" if big else "little"
-        c = int.from_bytes(nonce[12:], order) + (cv or 0)
-        for step, (x, y) in enumerate(zip(ri[1], rm[1])):
-            if step:
-                c += incs[step - 1]
-            if x == y:
-                continue
-            if y == ("e", 2) and x == ("b", nonce[:12] + (c % (1 << 32)).to_bytes(4, order)):
-                continue
-            return False
-        return True
-    return False
+    return ri == rm
 
 
 def run(tier):
     rep = vlib.Report(PID, tier)
     rng = vlib.Rng(vlib.seed())
+    import time as _t
+    t0 = _t.time()
+    phases = {}
+
+    def phase(name):
+        phases[name] = round(_t.time() - t0, 1)
     work = os.path.join(vlib.WORK, PID)
     os.makedirs(work, exist_ok=True)
     # (T1) regenerate the extracted tables from the current source
@@ -772,6 +755,9 @@ def run(tier):
         model_ok, _ = vlib.coq_make(["Model/SymWrapModel.vo"])
     vlib.check_theorems(rep, PID, THEOREMS, ["Proofs/SymWrapProofs.vo"])
     vlib.audit(rep)
+    if tier == "thorough":
+        vlib.coqchk(rep, PID, THEOREMS)        # independent re-check of the compiled theorem closure
+    phase("regen+build+theorems+audit")
     # (T2) correspondence + property oracles on the implementation
     streams = gen_cases(tier, rng)
     flat, owner = [], []
@@ -781,6 +767,7 @@ def run(tier):
             owner.append(name)
     impl = vlib.run_impl("c09_impl.py", {"cases": [[c[0]] + [vlib.jv(a) for a in c[1:]] for c in flat]}, timeout=3000)
     impl_res = [norm(r) for r in impl["results"]]
+    phase("implementation run")
     raw = impl["results"]
     orc = Oracle(cli_budget=4000 if tier == "thorough" else 700)
     for c, r, rr in zip(flat, impl_res, raw):
@@ -791,13 +778,14 @@ def run(tier):
         if o:
             rep.failing(o[0], "implementation violates the C09 contract: " + o[1],
                         {"kind": "impl-oracle", "function": FN[c[0]], "case": [c[0]] + [vlib.jv(a) for a in c[1:]], "impl_result": rr})
+    phase("oracles")
     ndis, nmodel = 0, 0
     if model_ok:
         try:
             idx = [i for i, c in enumerate(flat) if has_model(c)]
             nmodel = len(idx)
             model_res = vlib.run_model_cases("c09", "Value SymWrapModel", [to_model_expr(flat[i]) for i in idx],
-                                             shard=60 if tier == "quick" else 120, timeout=1500, jobs=8)
+                                             shard=110, timeout=1500, jobs=8)
             for i, rm in zip(idx, model_res):
                 c, ri = flat[i], impl_res[i]
                 rm = norm(vlib.jv(rm))
@@ -814,6 +802,8 @@ def run(tier):
             rep.obligation("correspondence:model evaluation", False, repr(ex))
     else:
         rep.obligation("correspondence:model builds", False, "Model/SymWrapModel.vo did not build")
+    phase("model evaluation + comparison")
+    vlib.log(f"  phases (cumulative s): {phases}")
     for name, cs in streams.items():
         idx = [i for i, o in enumerate(owner) if o == name]
         distinct = len({(repr(flat[i]), repr(impl_res[i])) for i in idx if impl_res[i][0] != "e"})
@@ -835,9 +825,9 @@ def run(tier):
                       "oracle reference implementations in tools/props/c09.py, openssl 3.0 CLI, hashlib"],
         checker_cmd="coqc -R . V Props/C09/*.v (after make Proofs/SymWrapProofs.vo)",
         assumptions=["messages up to 4 KiB in the differential runs (theorems are unbounded)", "CCM payloads shorter than 2^16 bytes",
-                     "Counter increments are non-negative in the oracle (negative ones are compared with the model only)",
+                     "Counter increments are non-negative in the oracle (negative ones are compared with the model only, which follows Python's & 0xFFFFFFFF)",
                      "SHA-1 / MD5 / SM3 are compared with hashlib only (no Coq reference)"],
-        extra_cov={"oracle_agreements": orc.hits, "openssl_cli_calls": orc.cli_used, "model_evaluations": nmodel})
+        extra_cov={"phases_cumulative_s": phases, "oracle_agreements": orc.hits, "openssl_cli_calls": orc.cli_used, "model_evaluations": nmodel})
 
 
 if __name__ == "__main__":
